@@ -189,10 +189,10 @@ func validPass(p string) bool {
 // Window describes the -date / -expire flags relative to the moment the case is executed, so
 // that a saved case stays valid: the tools verify at time.Now().
 type Window struct {
-	DateAgo  int    `json:"date_ago_s"`   // -date = now - DateAgo seconds; < 0: flag omitted (tool uses now)
+	DateAgo  int    `json:"date_ago_s"`    // -date = now - DateAgo seconds; < 0: flag omitted (tool uses now)
 	ZoneMin  int    `json:"date_zone_min"` // numeric zone offset used to print -date (0 = "Z")
-	Expire   int    `json:"expire_s"`     // -expire duration in seconds; <= 0: flag omitted (1h default)
-	ExpireAs string `json:"expire_as"`    // "s" (e.g. 5400s), "go" (1h30m0s), "m" (90m) when divisible, "h" when divisible
+	Expire   int    `json:"expire_s"`      // -expire duration in seconds; <= 0: flag omitted (1h default)
+	ExpireAs string `json:"expire_as"`     // "s" (e.g. 5400s), "go" (1h30m0s), "m" (90m) when divisible, "h" when divisible
 }
 
 // ok: now lies inside [date, date+expire] with at least two minutes on both sides and the life
